@@ -251,5 +251,176 @@ func lapackRows() []*lroutine {
 		mod("ldvl", ldv("jobvl", byte(lapack.LeftEVCompute))).mod("ldvr", ldv("jobvr", byte(lapack.RightEVCompute))).menu(0, 1, 2, 3).
 		// don't-care: the nested workspace query of Dtrevc3 examines a (its argument t) before Dgeev does.
 		altMsg("a", "lapack: insufficient length of t"))
+	// ---- routines added in the second round: SVD, Schur form, generalized problems ----
+	// fillTri writes an upper triangular (sub = false) or upper Hessenberg matrix with a distinct, well separated diagonal.
+	fillTri := func(rows, cols efn, ldname string, sub bool) func(e *lenv, s []float64) {
+		return func(e *lenv, s []float64) {
+			r, c, ld := rows(e), cols(e), e.g(ldname)
+			for i := range s {
+				s[i] = 0.5
+			}
+			for i := 0; i < r; i++ {
+				for j := 0; j < c; j++ {
+					x := 0.0
+					switch {
+					case i == j:
+						x = float64(2 + 3*i)
+					case i < j:
+						x = 0.25 * float64((i+j)%3+1)
+					case sub && i == j+1:
+						x = 0.125
+					}
+					if p := i*ld + j; p < len(s) {
+						s[p] = x
+					}
+				}
+			}
+		}
+	}
+	setFill := func(f func(e *lenv, s []float64)) func(a *larg) { return func(a *larg) { a.fill = f } }
+	nonZero := func(name string) func(e *lenv) bool { return func(e *lenv) bool { return e.g(name) != 0 } }
+	ldIf := func(cond func(e *lenv) bool, f efn) func(a *larg) {
+		return func(a *larg) {
+			a.min = func(e *lenv) int {
+				if cond(e) {
+					return imax(1, f(e))
+				}
+				return 1
+			}
+		}
+	}
+	fSVD := func(name string) []larg {
+		return lflag(name, lapack.SVDAll, "lapack: bad SVDJob", byte(lapack.SVDAll), byte(lapack.SVDStore), byte(lapack.SVDNone))
+	}
+	uAll, uStore := isFlag("jobU", byte(lapack.SVDAll)), isFlag("jobU", byte(lapack.SVDStore))
+	vAll, vStore := isFlag("jobVT", byte(lapack.SVDAll)), isFlag("jobVT", byte(lapack.SVDStore))
+	add(row("Dgesvd", fSVD("jobU"), fSVD("jobVT"), ldim("m", "n"), lmat("a", m, n), lvec("s", mn),
+		usedIf(lmat("u", m, func(e *lenv) int {
+			if uAll(e) {
+				return e.g("m")
+			}
+			return mn(e)
+		}), func(e *lenv) bool { return uAll(e) || uStore(e) }),
+		usedIf(lmat("vt", func(e *lenv) int {
+			if vAll(e) {
+				return e.g("n")
+			}
+			return mn(e)
+		}, n), func(e *lenv) bool { return vAll(e) || vStore(e) }),
+		lwork(func(e *lenv) int {
+			if mn(e) == 0 {
+				return 1
+			}
+			return imax(3*mn(e)+imax(e.g("m"), e.g("n")), 5*mn(e))
+		})).
+		mod("ldu", func(a *larg) {
+			a.min = func(e *lenv) int {
+				switch {
+				case uAll(e):
+					return imax(1, e.g("m"))
+				case uStore(e):
+					return imax(1, mn(e))
+				}
+				return 1
+			}
+		}).
+		mod("ldvt", ldIf(func(e *lenv) bool { return vAll(e) || vStore(e) }, n)).menu(0, 1, 2, 4))
+	add(row("Dbdsqr", fUplo(), ldim("n", "ncvt", "nru", "ncc"), lvec("d", n), lvec("e", n1),
+		usedIf(lmat("vt", n, v("ncvt")), nonZero("ncvt")), usedIf(lmat("u", v("nru"), n), nonZero("nru")), usedIf(lmat("c", n, v("ncc")), nonZero("ncc")),
+		lvec("work", times(4, n1))).
+		mod("ldu", ldIf(nonZero("nru"), n)).
+		emptyIf(func(e *lenv) bool { return e.g("n") == 0 }).menu(0, 1, 3))
+	applyQ := isFlag("vect", byte(lapack.ApplyQ))
+	nqk := minOf(nq, k)
+	add(row("Dormbr", lflag("vect", lapack.ApplyQ, "lapack: bad ApplyOrtho", byte(lapack.ApplyQ), byte(lapack.ApplyP)), fSide(), fTrans2(), ldim("m", "n", "k"),
+		lmat("a", func(e *lenv) int {
+			if applyQ(e) {
+				return nq(e)
+			}
+			return nqk(e)
+		}, func(e *lenv) int {
+			if applyQ(e) {
+				return nqk(e)
+			}
+			return nq(e)
+		}), lvec("tau", nqk), lmat("c", m, n), lwork(nw)).menu(0, 1, 3))
+	wantQ := isFlag("vect", byte(lapack.GenerateQ))
+	add(row("Dorgbr", lflag("vect", lapack.GenerateQ, "lapack: bad GenOrtho", byte(lapack.GenerateQ), byte(lapack.GeneratePT)), ldim("m", "n", "k"),
+		lmat("a", m, n), lvec("tau", func(e *lenv) int {
+			if wantQ(e) {
+				return imin(e.g("m"), e.g("k"))
+			}
+			return imin(e.g("n"), e.g("k"))
+		}), lwork(mn)).
+		where(func(e *lenv) bool {
+			mm, nn, kk := e.g("m"), e.g("n"), e.g("k")
+			if wantQ(e) {
+				return mm >= nn && nn >= imin(mm, kk)
+			}
+			return nn >= mm && mm >= imin(nn, kk)
+		}).mod("lda", func(a *larg) { a.skipQuery = true }))
+	wantz := isFlag("compz", byte(lapack.SchurHess), byte(lapack.SchurOrig))
+	add(row("Dhseqr", lflag("job", lapack.EigenvaluesOnly, "lapack: bad SchurJob", byte(lapack.EigenvaluesOnly), byte(lapack.EigenvaluesAndSchur)),
+		lflag("compz", lapack.SchurNone, "lapack: bad SchurComp", byte(lapack.SchurNone), byte(lapack.SchurHess), byte(lapack.SchurOrig)),
+		ldim("n"), intv("ilo", cst(0)), intv("ihi", ihi(n)), lmat("h", n, n), lvec("wr", n), lvec("wi", n), usedIf(lmat("z", n, n), wantz), lwork(n)).
+		mod("h", setFill(fillTri(n, n, "ldh", true))).mod("ldz", ldIf(wantz, n)))
+	leftv, rightv := isFlag("side", byte(lapack.EVLeft), byte(lapack.EVBoth)), isFlag("side", byte(lapack.EVRight), byte(lapack.EVBoth))
+	add(row("Dtrevc3", lflag("side", lapack.EVRight, "lapack: bad EVSide", byte(lapack.EVRight), byte(lapack.EVLeft), byte(lapack.EVBoth)),
+		lflag("howmny", lapack.EVAll, "lapack: bad EVHowMany", byte(lapack.EVAll), byte(lapack.EVAllMulQ), byte(lapack.EVSelected)),
+		usedIf(bvecEq("selected", n, "lapack: bad length of selected"), isFlag("howmny", byte(lapack.EVSelected))),
+		ldim("n"), lmat("t", n, n), usedIf(lmat("vl", n, v("mm")), leftv), usedIf(lmat("vr", n, v("mm")), rightv), intv("mm", n), lwork(times(3, n))).
+		mod("t", setFill(fillTri(n, n, "ldt", false))).
+		mod("ldvl", ldIf(leftv, v("mm"))).mod("ldvl", func(a *larg) { a.skipQuery = true }).
+		mod("ldvr", ldIf(rightv, v("mm"))).mod("ldvr", func(a *larg) { a.skipQuery = true }).
+		mod("mm", func(a *larg) {
+			a.extra = func(e *lenv) []lextra {
+				x := []lextra{{val: -1, msg: "lapack: mm < 0"}}
+				if e.g("n") > 0 {
+					x = append(x, lextra{val: e.g("n") - 1, msg: "lapack: mm out of range", alt: []string{"lapack: mm < 0"}})
+				}
+				return x
+			}
+		}).menu(0, 1, 2, 3))
+	updQ := isFlag("compq", byte(lapack.UpdateSchur))
+	outOfRange := func(name, msg string) func(a *larg) {
+		return func(a *larg) {
+			a.extra = func(e *lenv) []lextra {
+				if e.g("n") == 0 {
+					return nil
+				}
+				return []lextra{{val: -1, msg: msg}, {val: e.g("n"), msg: msg}}
+			}
+		}
+	}
+	add(row("Dtrexc", lflag("compq", lapack.UpdateSchur, "lapack: bad UpdateSchurComp", byte(lapack.UpdateSchur), byte(lapack.UpdateSchurNone)), ldim("n"),
+		lmat("t", n, n), usedIf(lmat("q", n, n), updQ), intv("ifst", cst(0)), intv("ilst", func(e *lenv) int { return imax(0, e.g("n")-1) }), lvec("work", n)).
+		mod("t", setFill(fillTri(n, n, "ldt", false))).mod("ldq", ldIf(updQ, n)).
+		mod("ifst", outOfRange("ifst", "lapack: ifst out of range")).mod("ilst", outOfRange("ilst", "lapack: ilst out of range")))
+	add(row("Dlatbs", fUplo(), fTrans3(), fDiag(), boolv("normin", false), ldim("n", "kd"), lband("ab", n, plus(kd, 1), msgBadLdA), lvec("x", n), lvec("cnorm", n)))
+	fOrtho := func(name string) []larg {
+		return lflag(name, lapack.OrthoNone, "lapack: bad OrthoComp", byte(lapack.OrthoNone), byte(lapack.OrthoExplicit), byte(lapack.OrthoPostmul))
+	}
+	cq, cz := isFlag("compq", byte(lapack.OrthoExplicit), byte(lapack.OrthoPostmul)), isFlag("compz", byte(lapack.OrthoExplicit), byte(lapack.OrthoPostmul))
+	add(row("Dgghrd", fOrtho("compq"), fOrtho("compz"), ldim("n"), intv("ilo", cst(0)), intv("ihi", ihi(n)), lmat("a", n, n), lmat("b", n, n),
+		usedIf(lmat("q", n, n), cq), usedIf(lmat("z", n, n), cz)).
+		mod("b", setFill(fillTri(n, n, "ldb", false))).mod("ldq", ldIf(cq, n)).mod("ldz", ldIf(cz, n)))
+	p := v("p")
+	gsvdJob := func(name string, c byte, extra ...byte) []larg {
+		return lflag(name, lapack.GSVDNone, "lapack: bad GSVDJob"+string(rune(c)), append([]byte{c, byte(lapack.GSVDNone)}, extra...)...)
+	}
+	wu, wv, wq := isFlag("jobU", 'U', 'I'), isFlag("jobV", 'V', 'I'), isFlag("jobQ", 'Q', 'I')
+	add(row("Dggsvd3", gsvdJob("jobU", 'U'), gsvdJob("jobV", 'V'), gsvdJob("jobQ", 'Q'), ldim("m", "n", "p"), lmat("a", m, n), lmat("b", p, n),
+		lvecEq("alpha", n, "lapack: bad length of alpha"), lvecEq("beta", n, "lapack: bad length of beta"),
+		usedIf(lmat("u", m, m), wu), usedIf(lmat("v", p, p), wv), usedIf(lmat("q", n, n), wq), lwork(cst(1)), ivec("iwork", n, msgShortIWork)).
+		mod("ldu", ldIf(wu, m)).mod("ldv", ldIf(wv, p)).mod("ldq", ldIf(wq, n)).optLworkOnly().menu(0, 1, 3))
+	add(row("Dggsvp3", gsvdJob("jobU", 'U'), gsvdJob("jobV", 'V'), gsvdJob("jobQ", 'Q'), ldim("m", "p", "n"), lmat("a", m, n), lmat("b", p, n),
+		lscalar("tola", 1e-10), lscalar("tolb", 1e-10),
+		usedIf(lmat("u", m, m), wu), usedIf(lmat("v", p, p), wv), usedIf(lmat("q", n, n), wq), ivecEq("iwork", n, msgShortIWork), lvec("tau", n), lwork(cst(1))).
+		mod("ldu", ldIf(wu, m)).mod("ldv", ldIf(wv, p)).mod("ldq", ldIf(wq, n)).optLworkOnly().menu(0, 1, 3))
+	add(row("Dtgsja", gsvdJob("jobU", 'U', 'I'), gsvdJob("jobV", 'V', 'I'), gsvdJob("jobQ", 'Q', 'I'), ldim("m", "p", "n"), intv("k", cst(0)), intv("l", cst(0)),
+		lmat("a", m, n), lmat("b", p, n), lscalar("tola", 1e-10), lscalar("tolb", 1e-10),
+		lvecEq("alpha", n, "lapack: bad length of alpha"), lvecEq("beta", n, "lapack: bad length of beta"),
+		usedIf(lmat("u", m, m), wu), usedIf(lmat("v", p, p), wv), usedIf(lmat("q", n, n), wq), lvec("work", times(2, n))).
+		mod("ldu", ldIf(wu, m)).mod("ldv", ldIf(wv, p)).mod("ldq", ldIf(wq, n)).menu(0, 1, 3))
 	return rs
 }
